@@ -7,6 +7,7 @@ import Grevm.Driver.Components
 import Grevm.Driver.Sched
 import Grevm.Driver.Repr
 import Grevm.Driver.Small
+import Grevm.Driver.Reserve
 
 open Grevm Grevm.Driver
 
@@ -100,6 +101,8 @@ def runSession (lines : List String) : String :=
       | "history" :: hd => replayHistory hd rest
       | ["reward"] => replayReward rest
       | ["repr"] => ReprConf.replayRepr rest
+      | ["guard-table"] => Small.guardTable
+      | ["reserve"] => ReserveConf.replayReserve rest
       | ["kernel", "wait"] => Small.replayWait rest
       | ["once", k] => Small.replayOnce (k.toNat?.getD 0) rest
       | ["sched", n] => SchedConf.replaySched (n.toNat?.getD 0) rest
